@@ -232,5 +232,19 @@ class RunShim:
                 shim.rec.add('child-exit', status)
                 return Completed(status)
 
+        class PatientThread(threading.Thread):
+            # run_program joins its helper with a 1 s real-time timeout; after its last sync point the helper needs
+            # microseconds, but on a loaded machine a scheduling stall must not turn into an assertion. The timeout is the
+            # one real-time element of run mode; stretch it (a helper that never ends is still reported, 20 s later).
+            def join(self, timeout=None):
+                return super().join(None if timeout is None else max(timeout, 20.0))
+
+        class ThreadingShim:
+            Thread = PatientThread
+
+            def __getattr__(self, n):
+                return getattr(threading, n)
+
         self.os_shim = OsShim()
         self.subprocess_shim = SubprocessShim()
+        self.threading_shim = ThreadingShim()
